@@ -559,7 +559,9 @@ func (w *TimerWork) Post(out *RunOut) {
 						continue
 					}
 					for _, n := range nexts {
-						if !n.Bool && n.Inv < closing.Inv && n.Ret > closing.Inv {
+						// the Next must have been waiting at an instant strictly before the closing Cancel's: one
+					// invoked in the very same instant may simply lose the race for the mutex to the Cancel
+					if !n.Bool && n.Inv < closing.Inv && n.Ret > closing.Inv && n.TI < closing.TI {
 							fail("pending-trigger-never-granted", "the trigger at %s (seq %d) had to be honoured, a Next (client%d#%d) kept waiting, yet it was only released (false) by the closing Cancel at %s", time.Duration(c.TI), c.Inv, n.Task, n.Idx, time.Duration(closing.TI))
 							return
 						}
